@@ -248,6 +248,10 @@ class SRTM30:
             and longitude coordinates of the SRTM30 data points within the
             given rectangle.
         """
+        # single-precision (numpy float32) bounds would otherwise be divided
+        # by the cell size in single precision and miss their cell by one
+        lat_min, lon_min = float(lat_min), float(lon_min)
+        lat_max, lon_max = float(lat_max), float(lon_max)
         i = (90 - lat_max) / SRTM30._dlat
         i_max = np.floor(i) + 1
         i = (90 - lat_min) / SRTM30._dlat
